@@ -4,29 +4,11 @@ import Rspirv.Generated.Extracted
 import Rspirv.Generated.Grammar
 import Rspirv.Generated.Spirv
 import Driver.Dec
+import Rspirv.Instances
 /-! `parse` and `asm` channels -/
 open Rspirv Rspirv.Model
 
-def theTables : Tables :=
-  { core := Rspirv.Generated.Grammar.coreTable
-    kindActs := Rspirv.Generated.Operands.kindActs
-    enums := Rspirv.Generated.Spirv.enums
-    masks := Rspirv.Generated.Spirv.masks
-    isType := fun o => Rspirv.Generated.Extracted.reflectTable.any (fun r => r.1 == o && r.2.testBit 4)
-    kIdResultType := Rspirv.Generated.Grammar.kind_IdResultType
-    kIdResult := Rspirv.Generated.Grammar.kind_IdResult
-    kCtxNumber := Rspirv.Generated.Grammar.kind_LiteralContextDependentNumber
-    kPairLitId := Rspirv.Generated.Grammar.kind_PairLiteralIntegerIdRef
-    kSpecOp := Rspirv.Generated.Grammar.kind_LiteralSpecConstantOpInteger
-    vIdRef := Rspirv.Generated.Operands.v_IdRef
-    vLit32 := Rspirv.Generated.Operands.v_LiteralBit32
-    vSpecOp := Rspirv.Generated.Operands.v_LiteralSpecConstantOpInteger
-    opConstant := Rspirv.Generated.Operands.op_Constant
-    opSpecConstant := Rspirv.Generated.Operands.op_SpecConstant
-    opSwitch := Rspirv.Generated.Operands.op_Switch
-    opTypeInt := Rspirv.Generated.Operands.op_TypeInt
-    opTypeFloat := Rspirv.Generated.Operands.op_TypeFloat
-    magic := Rspirv.Generated.Spirv.const_MAGIC_NUMBER }
+abbrev theTables : Tables := Rspirv.Instances.theTables
 
 def vLit64 : Nat := Rspirv.Generated.Operands.v_LiteralBit64
 def vLitString : Nat := Rspirv.Generated.Operands.v_LiteralString
